@@ -190,5 +190,18 @@ func directedHistories() []struct {
 			roundOf(0, 6, 4, 108*s, withTsv(0, 0)),
 			roundOf(0, 7, 4, 110*s, withTsv(950, 4)),
 		}})
+	// C18-D (seeded): observed-at times over the full uint64 range — an agreed value at or above 2^63 (e.g. a MaxUint64
+	// sentinel) followed by realistic wall-clock values: the aggregate must not move back
+	add("tsv-observed-at-beyond-int63", histIn{
+		Cfgs: []instCfg{{F: 1, N: 4, PVer: 1, Interval: 1}},
+		Rounds: []roundIn{
+			roundOf(0, 1, 4, 0, nil),
+			roundOf(0, 2, 4, 100*s, upd(9, tsvDef)),
+			roundOf(0, 3, 4, 102*s, withTsv(1<<63, 4)),
+			roundOf(0, 4, 4, 104*s, withTsv(1700000000*s, 4)),
+			roundOf(0, 5, 4, 106*s, withTsv(^uint64(0), 4)),
+			roundOf(0, 6, 4, 108*s, withTsv(1<<63+5, 4)),
+			roundOf(0, 7, 4, 110*s, withTsv(1<<63-1, 4)),
+		}})
 	return out
 }
